@@ -22,6 +22,48 @@ FDE = "pyyeti/fdepsd.py"
 SRS = "pyyeti/srs.py"
 
 
+class Careful:
+    """the rule's view of the context: a comparison that fails is a VIOLATION only when every evaluation the rule made followed all effects on
+    the arrays it read; an effect that was lost (Trace.lost) means the recorded content of some array may be incomplete - not decided"""
+
+    def __init__(self, ctx):
+        self._ctx = ctx
+        self.traces = []
+
+    def __getattr__(self, k):
+        return getattr(self._ctx, k)
+
+    def lost(self):
+        out = []
+        for tr in self.traces:
+            for what, node in tr.lost:
+                w = f"{what} at {self._ctx.src.where(node)}"
+                if w not in out:
+                    out.append(w)
+        return out
+
+    def fail(self, instance, where=None, detail=None, key=None):
+        lost = self.lost()
+        if lost:
+            return self._ctx.error(instance + " [not decided: an effect on an array was not followed]", where, {"compared": detail, "not followed": lost[:4]})
+        return self._ctx.fail(instance, where, detail, key)
+
+    def check(self, cond, instance, where=None, detail=None, key=None, nontrivial=True):
+        if cond:
+            self._ctx.ok(instance, where, detail, nontrivial)
+        else:
+            self.fail(instance, where, detail, key)
+        return cond
+
+
+def careful(rule):
+    def run(ctx):
+        return rule(Careful(ctx))
+    run.__name__ = rule.__name__
+    run.__doc__ = rule.__doc__
+    return run
+
+
 def params(fn):
     a = fn.args
     return [x.arg for x in a.posonlyargs + a.args]
@@ -1058,10 +1100,19 @@ class _Mismatch(Exception):
     pass
 
 
-def _columns(v, cols):
+def _columns(v, cols, more=None, primary=None):
     """a row expression over idx(Count, (:, a:b)) atoms evaluated on generic columns `cols` -> (list of values, array) ; None when the
-    expression is not of that form; _Mismatch when it is but the pieces do not fit (different lengths, rows sliced instead of columns)"""
+    expression is not of that form; _Mismatch when it is but the pieces do not fit (different lengths, rows sliced instead of columns).
+    more: {array name: its columns as values over `cols`} for arrays derived from the primary one (a copy that is being updated in place);
+    a piece of such an array counts as a piece of `primary`"""
     n = len(cols)
+    more = more or {}
+
+    def src_of(b):
+        nm = sym_of(b)
+        if nm is not None and nm in more:
+            return more[nm], primary
+        return cols, b
     if v is None or is_unknown(v) or isinstance(v, (tuple, str)):
         return None
     if not v.d.is_const():
@@ -1106,7 +1157,8 @@ def _columns(v, cols):
             else:
                 return None
         part = list(range(n))[slice(*bounds)]
-        vec = [coef / v.d.const_value() * cols[k] for k in part]
+        src, b = src_of(b)
+        vec = [coef / v.d.const_value() * src[k] for k in part]
         if out is None:
             out = (vec, b)
         else:
@@ -1117,7 +1169,8 @@ def _columns(v, cols):
             out = ([p + q for p, q in zip(out[0], vec)], b)
     for av, coef in sorted(later, key=lambda z: app(z[0], "hcat") is not None):
         if sym_of(av) is not None:
-            vec, b = [coef * c for c in cols], av                 # every column of the array itself
+            src, b = src_of(av)
+            vec = [coef * c for c in src]                         # every column of the array itself
         else:
             vec, b, fill = [], None, None
             for part in app(av, "hcat")[1]:
@@ -1128,7 +1181,7 @@ def _columns(v, cols):
                         return None
                     fill = (len(vec), const_of(part))                # a constant block (np.zeros((n, k))): as wide as numpy's shape check demands
                     continue
-                r = _columns(part, cols)
+                r = _columns(part, cols, more, primary)
                 if r is None or (b is not None and not same(b, r[1])):
                     return None
                 b = r[1]
@@ -1165,13 +1218,25 @@ def r3_telescoping(ctx):
     ok = hc is not None and CT is not None
     mism = None
     if hc is None and CT is not None and sym_of(Z) is not None and S.cells(sym_of(Z)):
-        # the array is allocated and its column blocks are stored one by one: BinCount[:, :-1] = ...; BinCount[:, -1] = ...
-        slots = [None] * len(C)
+        # the array is allocated (or made as a copy of the cumulative counts) and its column blocks are stored one by one, in program order:
+        # BinCount[:, :-1] = ...; BinCount[:, -1] = ...   /   BinCount = Count.copy(); BinCount[:, :-1] -= Count[:, 1:]
+        ZS = sym_of(Z)
+        cur, have = [F.const(0)] * len(C), [False] * len(C)
         ok = True
-        for c in S.cells(sym_of(Z)):
+        ini = S.deref(S.init(ZS))
+        if ini is not None and not is_unknown(ini) and not isinstance(ini, tuple) and const_of(ini) is None:
+            try:
+                r = _columns(ini, C)
+            except _Mismatch as e:
+                r, mism = None, str(e)
+            if r is not None and sym_of(r[1]) == CT and len(r[0]) == len(C):
+                cur, have = list(r[0]), [True] * len(C)
+            else:
+                ok = False
+        for c in (S.cells(ZS) if ok and not mism else []):
             try:
                 tgt = _columns(F.fn("idx", F.sym("<pos>"), c[1]), [F.const(i) for i in range(len(C))]) if not is_unknown(c[1]) else None
-                r = _columns(c[2], C)
+                r = _columns(c[2], C, {ZS: cur}, F.sym(CT))
             except _Mismatch as e:
                 mism = str(e)
                 break
@@ -1181,10 +1246,13 @@ def r3_telescoping(ctx):
             if len(tgt[0]) != len(r[0]):
                 mism = f"{len(r[0])} columns are stored into {len(tgt[0])}: {short(c[1], 80)} = {short(c[2], 120)}"
                 break
+            new = list(cur)
             for t_, v_ in zip(tgt[0], r[0]):
-                slots[int(const_of(t_))] = v_
+                new[int(const_of(t_))] = v_
+                have[int(const_of(t_))] = True
+            cur = new
         if ok and not mism:
-            vec = [x for x in slots if x is not None]
+            vec = [x for x, h in zip(cur, have) if h]
     elif hc is None and CT is not None:
         # one expression over the array of cumulative counts (Count minus Count shifted by one column, ...)
         try:
@@ -1501,11 +1569,11 @@ def _under(v, facts):
 
 
 RULES = [
-    ("C10-R1", r1_exponents, 27),
-    ("C10-R3", r3_telescoping, 9),
-    ("C10-R5", r5_binify_guards, 28),
-    ("C10-R6", r6_tolerance_strictness, 20),
-    ("C10-R7", r7_amplitude_scaling, 14),
+    ("C10-R1", careful(r1_exponents), 27),
+    ("C10-R3", careful(r3_telescoping), 9),
+    ("C10-R5", careful(r5_binify_guards), 28),
+    ("C10-R6", careful(r6_tolerance_strictness), 20),
+    ("C10-R7", careful(r7_amplitude_scaling), 14),
 ]
 LEVEL = "other"
 EXPLANATION = ("Static, decided on values (functions evaluated on symbols, helpers followed, every branch visited with its guard): binify's dropped index guard is "
